@@ -2096,7 +2096,10 @@ def run_c16(ctx):
         spacing = [Fr(rng.randint(1, 3)) for _ in range(3)]
         B1 = rng.choice([[[1, 0, 0], [0, 1, 0], [0, 0, 1]], [[0, -1, 0], [1, 0, 0], [0, 0, 1]], [[1, 0, 0], [0, 0, -1], [0, 1, 0]]])
         B1 = [[Fr(x) for x in r] for r in B1]
-        ext2, B2, variant = list(ext), [list(r) for r in B1], rng.choice(["flat axis", "basis entry", "basis entry", "same"])
+        ext2, B2, variant = list(ext), [list(r) for r in B1], rng.choice(["flat axis", "basis entry", "basis entry", "same", "basis round-off"])
+        if variant == "basis round-off":
+            # a computed rotation: entries that are exactly zero in one matrix are round-off (2^-54) in the other
+            B2 = [[(x if x != 0 else Fr(rng.choice([1, -1]), 2 ** 54)) for x in r] for r in B2]
         if variant == "flat axis":
             nz = [e for e in ext if e > 0]
             cand = [e2 for e2 in ([nz[0], 0, 0], [0, nz[0], 0], [0, 0, nz[0]]) if e2 != ext] if len(nz) == 1 else \
@@ -2130,10 +2133,17 @@ def run_c16(ctx):
         ctx.case(canon, variant != "same", sample={"case": canon, "impl": res})
         ctx.count(f"c16:image:{variant}")
         # the harness's formula for the points is itself checked against the mesh's own points (C07 proves the formula)
-        if [[Fr(float(x)) for x in p] for p in pa.tolist()] != P1 or [[Fr(float(x)) for x in p] for p in pb.tolist()] != P2:
+        if variant != "basis round-off" and \
+                ([[Fr(float(x)) for x in p] for p in pa.tolist()] != P1 or [[Fr(float(x)) for x in p] for p in pb.tolist()] != P2):
             ctx.violation("E2", "ImageMesh.points differ from origin + basis * (spacing * index)", canon, found_input=False)
             continue
         same_pts = len(P1) == len(P2) and P1 == P2
+        if variant == "basis round-off":
+            if not (res["ab"] and res["ba"]):
+                ctx.violation("E4", f"image meshes whose direction matrices differ by round-off only (2^-54 where the other holds 0) compare "
+                                    f"unequal: {res}; all defining parameters agree within the tolerance", canon, impl=res)
+            ctx.traces_validated += 1
+            continue
         if res["ab"] != res["ba"]:
             ctx.violation("E4", f"image equals is not symmetric: {res}", canon, impl=res)
         elif res["ab"] and not same_pts:
